@@ -86,6 +86,18 @@ async fn resolve_forwarding_notimeout<'a>(
                 Ok(resolved) => {
                     let soa_rr = resolved.soa_rr().cloned();
                     let mut r_rrs = resolved.rrs();
+                    // the upstream nameserver follows aliases on its own, and
+                    // may walk back into names already on our part of the
+                    // chain: stop there rather than repeat records
+                    if let Some(pos) = r_rrs.iter().position(|r_rr| {
+                        r_rr.rtype_with_data.rtype() == RecordType::CNAME
+                            && rrs.iter().any(|rr| {
+                                rr.rtype_with_data.rtype() == RecordType::CNAME
+                                    && rr.name == r_rr.name
+                            })
+                    }) {
+                        r_rrs.truncate(pos);
+                    }
                     let mut combined_rrs = Vec::with_capacity(rrs.len() + r_rrs.len());
                     combined_rrs.append(&mut rrs);
                     combined_rrs.append(&mut r_rrs);
